@@ -111,6 +111,20 @@ func genC12Case(t *rapid.T) C12Case {
 			q.Attrs = append(q.Attrs, spsim.QAttr{Name: "Nonexistent" + fmt.Sprint(i), NameFormat: A, FriendlyName: "x"})
 		}
 	}
+	// a requester may list the values it is interested in (some, none or other than the user's): the statement releases whole
+	// attributes by Name and NameFormat
+	for i := range q.Attrs {
+		if rapid.IntRange(0, 3).Draw(t, "qvalues") == 0 {
+			for _, o := range own {
+				if o.Name == q.Attrs[i].Name && len(o.Values) > 0 && rapid.Bool().Draw(t, "qvalue-own") {
+					q.Attrs[i].Values = append(q.Attrs[i].Values, o.Values[0])
+				}
+			}
+			if rapid.Bool().Draw(t, "qvalue-other") || len(q.Attrs[i].Values) == 0 {
+				q.Attrs[i].Values = append(q.Attrs[i].Values, "a-value-nobody-has")
+			}
+		}
+	}
 	// requested attributes that do match may carry any FriendlyName as well
 	for i := range q.Attrs {
 		if q.Attrs[i].FriendlyName == A && rapid.IntRange(0, 3).Draw(t, "qfriendly") == 0 {
